@@ -229,10 +229,10 @@ EpsAt(I, tau) == IF I.T = 64 THEN 2 ELSE 64 + 16 * Max(tau[1], 0)
 
 HasTaus0(I, ev) == ProcOk(ev) /\ IsAsync(I.kind) /\ I.signal = "index" /\ ~I.pre.flushed
                      /\ ~I.flushed /\ Len(ev.taus) > 0 /\ Len(ev.taus) = ev.nout
-\* an instant is a position in a stream of fewer than 2^20 frames; anything else (the driver logs
+\* an instant is a position in a stream of fewer than 2^29 frames; anything else (the driver logs
 \* NaN/infinite/huge values as +-2^30) is not an instant at all.  Reported once, by C06_Increasing;
 \* the other predicates then have nothing to measure (and TLC's 32-bit integers are not overrun).
-SaneTau(t) == t[1] > -1048576 /\ t[1] < 1048576
+SaneTau(t) == t[1] > -536870912 /\ t[1] < 536870912
 TausSane(I, ev) == /\ \A k \in 1..Len(ev.taus) : SaneTau(ev.taus[k])
                    /\ (I.pre.warm => SaneTau(I.pre.lastTau))
                    /\ SaneTau(I.pre.cur) /\ SaneTau(I.pre.tgt)      \* a NaN ratio was accepted (C12's business)
